@@ -385,6 +385,24 @@ def registry(F, rep):
                         fl = place_fields(d[3]["p"])
                         if fl and fl[-1][2] == "struct_names" and f is lp:
                             registered.add(v)
+                            # order: the name is registered BEFORE the declaration's own methods / trait impls are
+                            # lowered (constructor calls inside them must already see it)
+                            late = sorted({(callee_name(f.term(b2)) or "").split("::")[-1] for b2 in blocks
+                                           if f.term(b2)["t"] == "call" and b2 != b and
+                                           b in f.reachable(b2, avoid={s["block"]}) and
+                                           re.search(r"lower_(class_|model_|newtype_)?methods?|lower_method|"
+                                                     r"lower_trait_impl|lower_impl", (callee_name(f.term(b2)) or ""))})
+                            inst = "struct_names:%s:before-methods" % v
+                            rep.oblige("REGISTRY", inst, not late, sample={"rule": "REGISTRY", "declaration": v,
+                                                                           "lowered_before_registration": late})
+                            if late:
+                                rep.add(Finding("REGISTRY", "REGISTRY|struct_names|%s|after-methods" % v,
+                                                "lower_program registers %s names in struct_names only after %s has "
+                                                "run: a constructor call of the %s inside its own methods is "
+                                                "classified by the capitalisation heuristic alone, so a lowercase "
+                                                "name is lowered as a plain function call (keyword arguments and "
+                                                "defaults are lost)" % (v, ", ".join(late), v.lower()),
+                                                file=lp.file, line=t.get("ln"), fn=lp.path))
     for v in ("Model", "Class", "Newtype"):
         ok = v in registered
         rep.oblige("REGISTRY", "struct_names:%s" % v, ok,
